@@ -226,6 +226,9 @@ func (r *Runner) Run() *Result {
 	return r.Res
 }
 
+// Cleanup closes everything (for callers that used KeepOpen).
+func (r *Runner) Cleanup() { r.cleanup() }
+
 func (r *Runner) cleanup() {
 	for _, h := range r.handles {
 		r.closeHandle(h)
